@@ -536,9 +536,17 @@ def run(rep, tier="quick", replay=None, evidence_dir=None, collect_only=False):
             tab = ub_.opdesc(t["args"][0])
             if tab not in ("self.names", "self.variant_index"):
                 continue
-            cr = ub_.call_result_of(t["args"][2]) if len(t["args"]) > 2 else None
+            # the position stored is self.schemas.len() taken before the branch is appended (directly or through a local)
+            cr = None
+            if len(t["args"]) > 2 and t["args"][2].get("k") in ("copy", "move"):
+                r_ = ub_.resolve_operand(t["args"][2])
+                if r_ and not [p for p in r_[1] if p not in ("*", "&")]:
+                    sd_ = ub_.single_def(r_[0])
+                    if sd_ and sd_[2] == "call":
+                        cr = (sd_[0], sd_[3])
             pos_ok = bool(cr and callee_names(cr[1]["func"])[0].endswith("::len") and "self.schemas" in ub_.opdesc(cr[1]["args"][0]))
-            paired = any(ub_.postdominates(p_, bi) for p_ in pushes)
+            # insert and push always happen together, the length being read before the push
+            paired = any((ub_.postdominates(p_, bi) or (ub_.dominates(p_, bi) and ub_.postdominates(bi, p_))) and (not cr or ub_.dominates(cr[0], p_)) for p_ in pushes)
             inst = "%s: an entry of %s is added only together with the branch it points to" % (ub_.path.split("::")[-1], tab)
             kx = sum(1 for o in rep.obligations if o["rule"] == "C11.R1" and o["instance"].startswith(inst))
             rep.ob("C11.R1", inst + ("" if not kx else " #%d" % (kx + 1)), pos_ok and paired,
